@@ -184,7 +184,7 @@ ERR_KINDS_SEMANTIC = [
 ]
 
 
-def run_verus(path, rlimit=30, seed=None, extra=None, timeout=1800, threads=16):
+def run_verus(path, rlimit=30, seed=None, extra=None, timeout=420, threads=16):
     cmd = ["verus", path, "--output-json", "--time-expanded", "--num-threads", str(threads), "--rlimit", str(rlimit), "--multiple-errors", "5", "--triggers-mode", "silent"]
     if seed is not None:
         cmd += ["--smt-option", "smt.random_seed=%d" % (seed % 100000)]
@@ -194,6 +194,7 @@ def run_verus(path, rlimit=30, seed=None, extra=None, timeout=1800, threads=16):
     try:
         r = subprocess.run(cmd, stdout=subprocess.PIPE, stderr=subprocess.PIPE, text=True, timeout=timeout, cwd=os.path.dirname(path))
     except subprocess.TimeoutExpired:
+        subprocess.run(["pkill", "-x", "z3"])
         raise ToolFailure("verus timed out after %ds on %s" % (timeout, path))
     wall = time.time() - t0
     js = None
